@@ -76,6 +76,14 @@ def fallsBack (br : BR) (wl : Option Workload) (br' : BR) : Bool :=
     br'.status.batchState = .upgrading && (br.status.batchState != .ready || !br'.status.hasReadyTime)
   else true
 
+/-- C11.iv: a plan change observed while `Progressing` (the persisted plan hash differs from the spec's)
+    is acknowledged (new hash observed) only together with the fall-back to `Upgrading` with no ready
+    time — a status never says "Ready, plan observed" for a plan whose pods were not checked. -/
+def planChangeFallsBack (br : BR) (br' : BR) : Bool :=
+  if br.status.phase = .progressing ∧ br.status.hash ≠ .same ∧ ¬ isPlanFinalizing br then
+    br'.status.batchState = .upgrading && !br'.status.hasReadyTime && br'.status.hash = .same
+  else true
+
 /-- The executor may panic only on a plan without batches / a negative current batch
     (not reachable from a Rollout the validating webhook accepts: steps are non-empty). -/
 def panicAllowed (br : BR) : Bool :=
@@ -95,6 +103,7 @@ def stepOracles (br : BR) (wl : Option Workload) (br' : Option BR) (wl' : Option
      ("C01.within_partition", withinPartition br b),
      ("C11.completed_means_released", completedMeansReleased br b wl'),
      ("C18.br_completed_means_released", completedMeansReleased br b wl'),
-     ("C11.falls_back", fallsBack br wl b)]
+     ("C11.falls_back", fallsBack br wl b),
+     ("C11.plan_change_falls_back", planChangeFallsBack br b)]
 
 end RV.Oracle.Executor
